@@ -159,3 +159,26 @@ def loop_bound_ok(path, i, iv, N):
         step1 = any(e.kind == "STORE" and isinstance(e.a, tuple) and e.a[:1] == ("var",) and e.a[-1] == name and e.b == lin("+", iv, C(1)) for e in path.events)
         return init0 and step1
     return False
+
+
+def iterator_position(path, x):
+    """abstract position of the iterator object x at the end of the path (engine: exec_iterator_loop): ('elem', elem term) |
+    ('end', container) | None; follows copies and the iterator -> const_iterator converting constructor"""
+    for _ in range(8):
+        if not isinstance(x, tuple):
+            return None
+        if x[:1] == ("addr",):
+            x = x[1]
+        v = path.state.mem.get(x)
+        if isinstance(v, tuple) and v[:1] == ("iter",):
+            return v[1], v[2]
+        c = path.state.mem.get(("copyof", x))
+        if c is not None:
+            x = c
+            continue
+        conv = next((e for e in path.events if e.kind == "CALL" and (e.extra or {}).get("ret") == x and short(e.a) in ("__normal_iterator", "__wrap_iter") and len(e.b) == 1), None)
+        if conv is not None:
+            x = conv.b[0]
+            continue
+        return None
+    return None
